@@ -27,6 +27,8 @@ def main(tier, replay):
         J('page-per-record-%s' % n, n, [0, 3, 2, 1, 1, 0, 1, -2, 1, 0, 0])
         J('rg-per-record-%s' % n, n, [0, 3, 1, 1, 1, 1, 0, -2, 2, 1, 0])
         # which members of each page's Statistics are present is chosen per page (all are optional in parquet.thrift)
+        # a data page without values as first, second or last page of every chunk
+        J('empty-page-%s' % n, n, [0, 2, 1, 1, 1, 0, 3, 1, len(n) % 3, 0, 0])
         narrow = len(P[n].columns()) <= 3
         J('stats-members-%s' % n, n, [0, 3, -1, 1, 1, 0, 0, 0, 0, 3 if narrow else 2, 0])
         J('stats-members-paged-%s' % n, n, [1, 1, 0, 1, 1, 0, 1, 2, 1, 2, 0])
@@ -62,7 +64,7 @@ def main(tier, replay):
     c.programs = len(P)
     c.bounds = {'records': '3 fixed-structure records (three structures), or 1 free + 1 fixed; long pages of 9, 17 and 520 (1030 thorough) records',
                 'level streams': 'five run-segmentation strategies (single bit-packed run with SYMBOLIC padding values in the last group; maximal RLE runs incl. length 1; RLE for repeats >= 2 else bit-packed groups; every RLE run split in two; bit-packed prefix + RLE tail); bit-packed runs of 65, 129 and 257 groups (width 1) and 129 groups (width 2); RLE runs of 8200 levels (three-byte header)',
-                'pages / row groups': 'one page per chunk, one page per record, chosen at every record boundary; one row group, one per record, chosen', 'codec': 'fixed, or chosen independently per column',
+                'pages / row groups': 'one page per chunk, one page per record, chosen at every record boundary, a page without values at the start / after the first page / at the end of every chunk; one row group, one per record, chosen', 'codec': 'fixed, or chosen independently per column',
                 'optional thrift fields': 'created_by, key_value_metadata, crc present or absent; page Statistics absent / null_count only / min_value+max_value only / all six members, chosen once per file (per page for programs of <= 3 columns); in the same jobs the encoding field of a level kind the column does not store is any enum value 0..9 and ColumnChunk.file_offset (deprecated) is the chunk start, 0, or the position after the chunk',
                 'outside': 'NOT decided: real snappy streams with literals and copies (A3: the snappy decoder is a stub) and the thrift wire form of optional fields (A2); more than 3 runs kinds per stream beyond the five strategies'}
     c.assumptions = [STUB_ASSUMPTIONS[k] for k in ('A1', 'A2', 'A3', 'A4', 'A6')] + ['the foreign writer is written from the parquet-format text and the Dremel paper; natively (replay) it emits real thrift/snappy/gzip bytes']
